@@ -368,7 +368,7 @@ func (e *strEnv) val(t Term) (sval, bool) {
 			return v, true
 		}
 	}
-	if call, ok := t.(TCall); ok && call.Fun != nil && call.Recv != nil && len(call.Args) == 0 && call.Fun.Name() == "String" && (e.bufs != nil || e.execd) {
+	if call, ok := t.(TCall); ok && call.Fun != nil && call.Recv != nil && len(call.Args) == 0 && (call.Fun.Name() == "String" || call.Fun.FullName() == "(*bytes.Buffer).Bytes") && (e.bufs != nil || e.execd) {
 		if k, ok := e.localBuilder(call.Recv); ok {
 			if b, ok := e.bufs[k]; ok {
 				return sval{K: 's', S: string(b)}, true
@@ -672,6 +672,29 @@ func (e *strEnv) val(t Term) (sval, bool) {
 			if isS(0) && isS(1) {
 				return sval{K: 's', S: strings.TrimPrefix(args[0].S, args[1].S)}, true
 			}
+		case "strings.TrimSuffix":
+			if isS(0) && isS(1) {
+				return sval{K: 's', S: strings.TrimSuffix(args[0].S, args[1].S)}, true
+			}
+		case "strings.LastIndexByte":
+			if isS(0) && isI(1) {
+				return I(strings.LastIndexByte(args[0].S, byte(args[1].I))), true
+			}
+		case "strings.Cut":
+			if isS(0) && isS(1) {
+				before, after, found := strings.Cut(args[0].S, args[1].S)
+				return sval{K: 't', Tup: []sval{{K: 's', S: before}, {K: 's', S: after}, Bv(found)}}, true
+			}
+		case "strings.CutPrefix":
+			if isS(0) && isS(1) {
+				after, found := strings.CutPrefix(args[0].S, args[1].S)
+				return sval{K: 't', Tup: []sval{{K: 's', S: after}, Bv(found)}}, true
+			}
+		case "strings.CutSuffix":
+			if isS(0) && isS(1) {
+				before, found := strings.CutSuffix(args[0].S, args[1].S)
+				return sval{K: 't', Tup: []sval{{K: 's', S: before}, Bv(found)}}, true
+			}
 		case "strconv.ParseInt":
 			if isS(0) && isI(1) && isI(2) {
 				v, err := strconv.ParseInt(args[0].S, int(args[1].I), int(args[2].I))
@@ -719,6 +742,18 @@ func (c *Ctx) foldLoop(l *LoopRec, hook func(Term) (sval, bool), limit int) (map
 // foldLoopMem: as foldLoop; mem holds the folded values of addressed locals (by the key of the variable term): stores to such a local
 // inside the loop are applied to it, loads of it (*&v) read it.
 func (c *Ctx) foldLoopMem(l *LoopRec, hook func(Term) (sval, bool), limit int, mem map[string]sval) (map[types.Object]sval, string) {
+	return c.foldLoopExit(l, hook, limit, mem, nil)
+}
+
+// loopExit: how a folded loop was left — Idx is the index of the iteration path that returned or panicked from inside (-1: the loop ran
+// out or was left by break); the values returned are then those the leaving round began with (the convention of in-loop exits).
+type loopExit struct{ Idx int }
+
+// foldLoopExit: as foldLoopMem; with exit != nil a round that returns or panics ends the fold and is reported there.
+func (c *Ctx) foldLoopExit(l *LoopRec, hook func(Term) (sval, bool), limit int, mem map[string]sval, exit *loopExit) (map[types.Object]sval, string) {
+	if exit != nil {
+		exit.Idx = -1
+	}
 	if l.For == nil || l.CondT == nil {
 		return nil, "not a counted loop"
 	}
@@ -811,6 +846,14 @@ func (c *Ctx) foldLoopMem(l *LoopRec, hook func(Term) (sval, bool), limit int, m
 				}
 				sel, selMem = ip, cur
 			}
+		}
+		if sel != nil && exit != nil && (sel.End == "return" || sel.End == "panic") {
+			for k, ip := range l.Iter {
+				if ip == sel {
+					exit.Idx = k
+				}
+			}
+			return state, ""
 		}
 		if sel == nil || (sel.End != "fall" && sel.End != "continue" && sel.End != "break") {
 			return nil, "no continuing iteration path"
